@@ -338,11 +338,13 @@ def rand_cfg(rng, today):
             ["b", 1], ["b", 0], ["d", [737000, 3600, 0]]]
     few = rng.random() < 0.3                      # few distinct values: argument tuples collide, bag counts matter
     vals = rng.sample(pool, 2) if few else pool
+    # scalars that are themselves sequences (of the length of some table, or any other): still one value for every row
+    seqs = [[kind, [rng.choice(pool[:5]) for _ in range(L)]] for kind in ('l', 't') for L in sorted({0, 1, 2, 3, len(universe), len(universe) - 1})]
     n = rng.choice([1, 2, 3, 3, 4, 4, 4])
     ins, defs = [], []
     for i in range(n):
         if rng.random() < 0.22:
-            ins.append({'kind': 'scalar', 'v': rng.choice(vals), 'rows': []})
+            ins.append({'kind': 'scalar', 'v': rng.choice(seqs) if rng.random() < 0.4 else rng.choice(vals), 'rows': []})
         else:
             style = rng.choice(['all', 'all', 'most', 'most', 'most', 'rand', 'rand', 'few', 'empty'])
             if style == 'all':
